@@ -31,7 +31,7 @@ R9 = Fraction(1, 10**9)
 # helpers
 # ----------------------------------------------------------------------------------------------------------------------
 
-PROP_MODULES = ['C20', 'C20Gen']
+PROP_MODULES = ['C20', 'C20Gen', 'C20GenFns']
 
 def fmean(l):
     return sum(l, Fraction(0)) / len(l)
